@@ -86,6 +86,8 @@ def generic_call(rnd, driver_route, mode=None, script=None):
     data = bytes(rnd.getrandbits(8) for _ in range(n))
     mode = mode or rnd.choice(["connected", "ucmm", "ucsend"])
     kw = {"service": service, "request_data": {"__b": list(data)}, "connected": mode == "connected", "unconnected_send": mode == "ucsend"}
+    if rnd.random() < 0.25:                      # documented as bool, used as a truth value: 1 / 0 are accepted spellings
+        kw["connected"], kw["unconnected_send"] = int(kw["connected"]), int(kw["unconnected_send"])
 
     def idarg(v):
         if rnd.random() < 0.3:
